@@ -82,6 +82,9 @@ fn parse_deadlock(msg: &str) -> Vec<i64> {
 
 pub fn end_event_for_panic(msg: &str) -> Value {
     if msg.starts_with("deadlock! blocked tasks") {
+        if std::env::var("VDEBUG").is_ok() {
+            eprintln!("DEADLOCK-MSG: {msg}");
+        }
         json!({"e":"end","v":"deadlock","bl":parse_deadlock(msg)})
     } else if msg.starts_with("exceeded max_steps bound") {
         json!({"e":"end","v":"maxsteps"})
@@ -453,7 +456,7 @@ fn cmd_directed(args: &[String]) {
     let idx: usize = arg(args, "--idx").expect("--idx").parse().unwrap();
     let p = &progs[idx];
     let wit: Vec<(usize, usize, String)> = serde_json::from_str::<Vec<(usize, usize, String)>>(arg(args, "--witness").expect("--witness")).unwrap();
-    let child_of: Vec<Vec<i64>> = p.tasks.iter().map(|t| t.iter().map(|o| if o.k == "spawn" || o.k == "spawn_future" { o.v } else { -1 }).collect()).collect();
+    let child_of: Vec<Vec<i64>> = p.tasks.iter().map(|t| t.iter().map(|o| if o.k.starts_with("spawn") || o.k == "sspawn" { o.v } else { -1 }).collect()).collect();
     let d = rec::Directed::new(wit.clone(), child_of);
     rec::reset_log();
     let sched = Recorder::new(d.clone(), p.id);
